@@ -1,19 +1,22 @@
 //! Byte-driven entry points for the coverage-guided fuzz targets (`/verif/fuzz`).
 //!
-//! Every target is the *same* check the proptest tiers run — the same generator and
-//! the same oracle — but the generator's random stream is the fuzzer's input:
-//! proptest's `RngAlgorithm::PassThrough` hands the input bytes to the strategy as
-//! its "random" words, so a byte mutation is a local change of one generator
-//! decision and libFuzzer's coverage feedback steers the structured generator.
-//! (`c02_bytes` additionally feeds the input verbatim to every decoder.)
+//! Every target runs the *same check function* (same oracle) as a proptest sub-check;
+//! only the generator differs: a hand-written builder decodes the fuzzer's bytes into
+//! a case of the same type over the same domain as the proptest strategy (`U`, below),
+//! so a byte mutation is a local change of one generator decision and libFuzzer's
+//! coverage feedback steers the structured generator. `c02_bytes` and `c01_wire` feed
+//! the input verbatim to the decoders.
+//!
+//! (proptest's own `RngAlgorithm::PassThrough` was tried first and dropped: it halves
+//! the remaining byte stream at every generator fork — every `prop_oneof!` arm — and
+//! rand's unbiased range sampling then spins forever on the zeros of an exhausted
+//! stream.)
 //!
 //! A failing case is written as an ordinary replay file (`replays/<ID>/…json`,
 //! re-runnable with `./check <ID> replay <path>`), the `VIOLATION` line is printed,
 //! and the process aborts so that libFuzzer also keeps the raw input.
 
 use crate::engine::*;
-use proptest::strategy::{BoxedStrategy, Strategy, ValueTree};
-use proptest::test_runner::{Config, RngAlgorithm, TestRng, TestRunner};
 use serde::Serialize;
 use serde_json::{Value, json};
 use std::cell::RefCell;
@@ -32,51 +35,6 @@ pub struct Target {
     pub prop: &'static str,
     pub sub: &'static str,
     pub run: Box<dyn Fn(&[u8], bool) -> Outcome>,
-}
-
-/// A target made of a proptest strategy and a check.
-pub fn from_strategy<C>(
-    name: &'static str,
-    prop: &'static str,
-    sub: &'static str,
-    strat: fn() -> BoxedStrategy<C>,
-    check: fn(&C) -> CheckResult,
-) -> Target
-where
-    C: Serialize + Debug + 'static,
-{
-    let cached: RefCell<Option<BoxedStrategy<C>>> = RefCell::new(None);
-    Target {
-        name,
-        prop,
-        sub,
-        run: Box::new(move |data: &[u8], want_case: bool| {
-            let mut slot = cached.borrow_mut();
-            let strategy = slot.get_or_insert_with(strat);
-            let rng = TestRng::from_seed(RngAlgorithm::PassThrough, data);
-            let mut runner = TestRunner::new_with_rng(
-                Config {
-                    failure_persistence: None,
-                    ..Config::default()
-                },
-                rng,
-            );
-            let Ok(tree) = strategy.new_tree(&mut runner) else {
-                return Outcome::NoCase;
-            };
-            let case = tree.current();
-            match guarded(&check, &case) {
-                Ok(info) => Outcome::Pass {
-                    nontrivial: info.nontrivial,
-                    case: want_case.then(|| serde_json::to_value(&case).unwrap_or(Value::Null)),
-                },
-                Err(fail) => Outcome::Fail {
-                    case: serde_json::to_value(&case).unwrap_or(Value::Null),
-                    fail,
-                },
-            }
-        }),
-    }
 }
 
 /// A target whose case is built directly from the input bytes.
@@ -222,5 +180,97 @@ pub fn replay_raw(name: &str, data: &[u8]) -> Result<(), Fail> {
     match (target.run)(data, false) {
         Outcome::Fail { fail, .. } => Err(fail),
         _ => Ok(()),
+    }
+}
+
+/// Byte-stream decoder for hand-written case builders: every call consumes the next
+/// bytes of the fuzzer's input (zeros once it is used up, so building always ends).
+pub struct U<'a> {
+    d: &'a [u8],
+    pos: usize,
+}
+
+impl<'a> U<'a> {
+    pub fn new(d: &'a [u8]) -> Self {
+        Self { d, pos: 0 }
+    }
+    pub fn is_empty(&self) -> bool {
+        self.pos >= self.d.len()
+    }
+    pub fn u8(&mut self) -> u8 {
+        let b = self.d.get(self.pos).copied().unwrap_or(0);
+        self.pos += 1;
+        b
+    }
+    pub fn bool(&mut self) -> bool {
+        self.u8() & 1 == 1
+    }
+    pub fn u16(&mut self) -> u16 {
+        u16::from_le_bytes([self.u8(), self.u8()])
+    }
+    pub fn u32(&mut self) -> u32 {
+        u32::from_le_bytes([self.u8(), self.u8(), self.u8(), self.u8()])
+    }
+    pub fn u64(&mut self) -> u64 {
+        (self.u32() as u64) | ((self.u32() as u64) << 32)
+    }
+    /// Uniform-ish index below `n` (n >= 1), using as few bytes as the range needs.
+    pub fn below(&mut self, n: u64) -> u64 {
+        if n <= 1 {
+            return 0;
+        }
+        let raw = if n <= 1 << 8 {
+            self.u8() as u64
+        } else if n <= 1 << 16 {
+            self.u16() as u64
+        } else if n <= 1 << 32 {
+            self.u32() as u64
+        } else {
+            self.u64()
+        };
+        raw % n
+    }
+    /// A value in `lo..hi` (hi exclusive, hi > lo).
+    pub fn range(&mut self, lo: u64, hi: u64) -> u64 {
+        lo + self.below(hi - lo)
+    }
+    pub fn weighted(&mut self, weights: &[u32]) -> usize {
+        let total: u32 = weights.iter().sum();
+        let mut x = self.below(total as u64) as u32;
+        for (i, w) in weights.iter().enumerate() {
+            if x < *w {
+                return i;
+            }
+            x -= w;
+        }
+        weights.len() - 1
+    }
+    /// Boundary-heavy 64-bit values (the same classes as `gens::any_u64_mix`).
+    pub fn u64_mix(&mut self) -> u64 {
+        const EDGE: [u64; 18] = [
+            0, 1, 2, 0x7f, 0x80, 0xff, 0x100, 0xffff, 0x1_0000, 0x7fff_ffff, 0x8000_0000, 0xffff_ffff, 0x1_0000_0000,
+            1 << 62, (1 << 63) - 1, 1 << 63, u64::MAX - 1, u64::MAX,
+        ];
+        match self.weighted(&[3, 4]) {
+            0 => EDGE[self.below(EDGE.len() as u64) as usize],
+            _ => self.u64(),
+        }
+    }
+    /// Up to `max` elements; stops early when the input is used up.
+    pub fn vec<T>(&mut self, max: usize, mut f: impl FnMut(&mut U<'a>) -> T) -> Vec<T> {
+        let n = self.below(max as u64 + 1) as usize;
+        let mut v = Vec::with_capacity(n.min(1024));
+        for _ in 0..n {
+            if self.is_empty() {
+                break;
+            }
+            v.push(f(self));
+        }
+        v
+    }
+    pub fn rest(&mut self) -> &'a [u8] {
+        let r = &self.d[self.pos.min(self.d.len())..];
+        self.pos = self.d.len();
+        r
     }
 }
